@@ -91,6 +91,8 @@ type crashImage struct {
 	Loaded   bool     `json:"loaded"`
 	Verdicts []string `json:"verdicts"` // probes: old-only, new-only, common, unlisted
 	Temps    []string `json:"temp_artefacts_after_startup"`
+	Odd      []string `json:"other_leftovers_after_startup"`
+	After    []string `json:"probes_after_origin_back_and_refresh"`
 	Err      string   `json:"err,omitempty"`
 	probes   []string
 }
@@ -119,6 +121,7 @@ func runC12(c *Ctx) {
 	var images []*crashImage
 	var items []string
 	tmpRe := regexp.MustCompile(`^crl_.*_tmp$`)
+	hexRe := regexp.MustCompile(`^[0-9a-f]{64}$`)
 	for si, sc := range scs {
 		w := NewWorld(c, fmt.Sprintf("c12_%d", si))
 		for n, s := range histLists {
@@ -179,6 +182,22 @@ func runC12(c *Ctx) {
 					img.Verdicts = append(img.Verdicts, w2.Do(hs(p)))
 				}
 				img.Loaded = img.Verdicts[3] == "accept"
+				// nothing but store directories may be left in the work_dir, whatever a leftover is called
+				seenTop := map[string]bool{}
+				for _, f := range w2.Files() {
+					top := strings.Split(f, string(filepath.Separator))[0]
+					if !seenTop[top] && !hexRe.MatchString(top) {
+						img.Odd = append(img.Odd, top)
+					}
+					seenTop[top] = true
+				}
+				// and the location must be able to load and refresh again once the origin is back
+				w2.Do(sv("/a", "new"))
+				w2.Do(refreshStep)
+				for _, p := range []string{"c101", "c102", "c103", "c104"} {
+					img.After = append(img.After, w2.Do(hs(p)))
+				}
+				w2.Do(sv("/a", "down"))
 				closeWithTimeout(w2.V)
 			}
 			os.RemoveAll(img.Dir)
@@ -196,6 +215,11 @@ func runC12(c *Ctx) {
 			}
 			if len(img.Temps) > 0 {
 				c.Fail("", "temporary artefacts survive start-up: "+strings.Join(img.Temps, ","), img)
+			} else if len(img.Odd) > 0 {
+				c.Fail("", "after start-up the work_dir holds entries that are neither store directories nor swept: "+strings.Join(img.Odd, ","), img)
+			}
+			if got := strings.Join(img.After, ","); got != "accept,revoked,revoked,accept" {
+				c.Fail("", "after the restart the location cannot take in a newly published list any more: origin back with list {102,103}, refresh, probes 101..104 -> "+got, img)
 			}
 			v := strings.Join(img.Verdicts, ",")
 			pattern := func(list string) string {
@@ -251,6 +275,6 @@ func runC12(c *Ctx) {
 	}
 	c.WriteCoqSharded("cases_C12", "From Verif Require Import Base Repo RepoProps RunRepo.\nOpen Scope N_scope.\n", "ccase", items, "crash_mismatches", 100)
 	c.Rep.Cases = len(images)
-	c.Rep.Rule = "copies of the work directory taken after the download, after every store write into the staging store, after acceptance and after each of the five steps of LevelDbStore.Update (hook sites), for first load and refresh, accepted and rejected lists; a fresh validator is provisioned on each copy with all origins down and crl_cdp_strict on, probes old-only/new-only/common/unlisted; distinct by (scenario, phase)"
+	c.Rep.Rule = "copies of the work directory taken after the download, after every store write into the staging store, after acceptance and after each of the five steps of LevelDbStore.Update (hook sites), for first load and refresh, accepted and rejected lists; a fresh validator is provisioned on each copy with all origins down and crl_cdp_strict on, probes old-only/new-only/common/unlisted; then the work_dir must hold store directories only, and with the origin back a refresh must bring the new list into force; distinct by (scenario, phase)"
 	c.Rep.Extra["exhaustive"] = true
 }
